@@ -63,6 +63,9 @@ type Ctx struct {
 	known    map[string]bool
 	N        int // case budget for this tier
 	maxKeep  int
+	Start    time.Time
+	Out      string
+	Rule     string
 }
 
 func NewCtx(prop, tier string, seed int64, driverPath string) (*Ctx, error) {
